@@ -127,7 +127,8 @@ CLAIMED["C03"] = (
     "three structural clauses of C03; id allocation, len/contains/size bookkeeping, offset arithmetic and bitmap logic are not decided",
     "DESIGN.md section 4 C03, section 3 R-SYM / R-FLOW")
 CLAIMED["C08"] = (
-    "MIR analysis of compare-exchange pops on intrusive free lists (R-ABA: version tag or live lock), tag advance on push, atomic check-then-act (R-ATOM)",
+    "MIR analysis of compare-exchange pops on intrusive free lists (R-ABA: version tag or live lock; single head snapshot), tag advance "
+    "and relink-inside-the-retry-loop on push, atomic check-then-act and load/modify/store (R-ATOM)",
     "static rule over MIR: every CAS whose new value is read through the loaded head must carry a +1 version tag derived from the "
     "loaded word (directly or in a crate-local helper) or run under a live lock guard; tagged lists advance the tag on every CAS",
     "one structural clause of C08 (free structures stay well formed under pre-emption between head load and CAS); linearizability, "
@@ -135,7 +136,8 @@ CLAIMED["C08"] = (
     "DESIGN.md section 4 C08, section 3 R-ABA")
 CLAIMED["C17"] = (
     "MIR must-pass-through / who-may-call analysis of the eviction path (R-ORDER/R-FLOW), lock-order graph with read/write modes "
-    "(R-LOCKORDER) and routing purity of the shard selector",
+    "(R-LOCKORDER), recency refresh on every entry access (R-TOUCH), index-lock coverage of list operations (R-LOCKCOV.lru) and "
+    "routing purity of the shard selector",
     "static rules over MIR: evict_lru invokes the callback exactly once on the entry it unlinks and only when the map is full; the "
     "locks of LruMap are acquired in one order; the shard for a key depends on the key and on no thread id / counter / clock",
     "structural clauses of C17; LRU order values, the capacity bound, page-cache byte equality and staleness after invalidation are "
@@ -143,7 +145,8 @@ CLAIMED["C17"] = (
     "DESIGN.md section 4 C17, section 3 R-ORDER / R-FLOW")
 CLAIMED["C07"] = (
     "MIR taint/bit-width analysis of capacity guards (R-ARITH/R-GUARD), class-size provenance (R-CLASS), raw-owner-pointer escape + "
-    "compile-fail witnesses (R-OWN), must-consume analysis (R-LINEAR), who-may-drop-an-arena (R-ARENA)",
+    "compile-fail witnesses (R-OWN), must-consume analysis (R-LINEAR), who-may-drop-an-arena (R-ARENA), commit-before-check on atomic "
+    "cursors (R-COMMIT)",
     "static rules over MIR and borrow-checker witnesses: a capacity check cannot be wrapped by the request size; a block is carved at "
     "the size of the class it is filed under; RAII guards are tied to their pool; a freed chunk is always handed back; a live arena is "
     "never freed by an allocation path",
